@@ -475,3 +475,72 @@ pub proof fn lemma_lp_quote(s: Seq<char>, lo: int, q: int, hi: int)
         }
     }
 }
+
+pub proof fn lemma_ws_elem(s: Seq<char>, lo: int, hi: int, k: int)
+    requires all_ws_in(s, lo, hi), lo <= k < hi,
+    ensures is_ws(s[k]),
+{
+    reveal(all_ws_in);
+}
+pub proof fn lemma_ws_prefix(s: Seq<char>, lo: int, mid: int, hi: int)
+    requires all_ws_in(s, lo, hi), mid <= hi,
+    ensures all_ws_in(s, lo, mid),
+{
+    reveal(all_ws_in);
+}
+
+// what the scan knows about the tokens pushed so far (opaque: maintained by lemma_tok_push at every push)
+pub open spec fn is_operand_type(t: TokenType) -> bool { t is Subgoal || t is LParen }
+pub open spec fn next_ok(ts: Seq<Token>, k: int) -> bool {
+    (0 <= k && k + 1 < ts.len() && ttype(ts[k]) is LParen) ==> is_operand_type(ttype(ts[k + 1]))
+}
+pub open spec fn leaf_ok(ts: Seq<Token>, k: int) -> bool {
+    0 <= k < ts.len() ==> short_leaf(ts[k]) && is_leaf_type(ttype(ts[k]))
+}
+#[verifier::opaque]
+pub open spec fn tok_inv(ts: Seq<Token>) -> bool {
+    &&& forall|k: int| #[trigger] leaf_ok(ts, k)
+    &&& forall|k: int| #[trigger] next_ok(ts, k)
+    &&& (ts.len() > 0 ==> is_operand_type(ttype(ts[0])))
+}
+// an operand is due: nothing has been pushed yet, or the last token is an opening parenthesis
+pub open spec fn operand_due(ts: Seq<Token>) -> bool {
+    ts.len() == 0 || ttype(ts[ts.len() - 1]) is LParen
+}
+pub proof fn lemma_tok_empty()
+    ensures tok_inv(Seq::<Token>::empty()),
+{
+    reveal(tok_inv);
+}
+pub proof fn lemma_tok_push(ts: Seq<Token>, t: Token)
+    requires tok_inv(ts), short_leaf(t), is_leaf_type(ttype(t)),
+             operand_due(ts) ==> is_operand_type(ttype(t)),
+    ensures tok_inv(ts.push(t)),
+{
+    reveal(tok_inv);
+    let t2 = ts.push(t);
+    assert forall|k: int| #[trigger] leaf_ok(t2, k) by {
+        if 0 <= k < ts.len() { assert(leaf_ok(ts, k)); assert(t2[k] == ts[k]); }
+    }
+    assert forall|k: int| #[trigger] next_ok(t2, k) by {
+        if 0 <= k && k + 1 < t2.len() {
+            assert(t2[k] == ts[k]);
+            if k + 1 < ts.len() { assert(next_ok(ts, k)); assert(t2[k + 1] == ts[k + 1]); }
+        }
+    }
+    if ts.len() > 0 { assert(t2[0] == ts[0]); }
+}
+pub proof fn lemma_tok_done(ts: Seq<Token>)
+    requires tok_inv(ts), !operand_due(ts),
+    ensures leaves_ok(ts), starts_operand(ts, 0),
+            forall|k: int| 0 <= k < ts.len() ==> short_leaf(#[trigger] ts[k]) && is_leaf_type(ttype(ts[k])),
+{
+    reveal(tok_inv);
+    assert forall|k: int| 0 <= k < ts.len() implies short_leaf(#[trigger] ts[k]) && is_leaf_type(ttype(ts[k])) by {
+        assert(leaf_ok(ts, k));
+    }
+    assert forall|i: int| 0 <= i < ts.len() && ttype(#[trigger] ts[i]) is LParen implies
+            i + 1 < ts.len() && (ttype(ts[i + 1]) is Subgoal || ttype(ts[i + 1]) is LParen) by {
+        assert(next_ok(ts, i));
+    }
+}
